@@ -14,6 +14,9 @@ def run(ctx):
     for kind in ("stale-witness", "nonpess-coverer", "tie"):
         for v in range(2 if ctx.quick else 3):
             recs.append(scenarios.run_spec(scenarios.epal_directed(kind, variant=v), max_steps=6))
+    for v in range(2 if ctx.quick else 3):
+        for a in ("PaVeBaGP-IH", "PaVeBaPartialGP-rect"):
+            recs.append(scenarios.run_spec(scenarios.paveba_gp_requery(a, variant=v), max_steps=4))
     an = algcheck.Analysis(ctx, recs)
     viol = algcommon.diff_violations(an, KEYS, "C03")
     for r in recs:
